@@ -462,3 +462,89 @@ def aggregate_replay(keys, estimator="nonparametric", alpha=0.9):
                 out["problems"].append({"group": k, "observed(results,pred,reporting,lower,upper)": [float(x) for x in obs], "expected": [float(x) for x in exp]})
     out["ok"] = not out["problems"]
     return out
+
+
+def gate_replay(alphas, n, pi_method="nonparametric"):
+    """REAL client: raises the dedicated error iff n < max over the requested levels of the model's minimum"""
+    from elexmodel.client import ModelNotEnoughSubunitsException
+    from elexmodel.models.BootstrapElectionModel import BootstrapElectionModel
+    from elexmodel.models.GaussianElectionModel import GaussianElectionModel
+    from elexmodel.models.NonparametricElectionModel import NonparametricElectionModel
+
+    n = int(max(0, min(n, 400)))
+    cls = {"nonparametric": NonparametricElectionModel, "gaussian": GaussianElectionModel}[pi_method]
+    need = max(cls({}).get_minimum_reporting_units(a) for a in alphas)
+    base = synthetic(n + 4, seed=3, states=("AA",))
+    cur = feed(base, [100] * n + [0] * 4)
+    out = {"exc": None, "raised_dedicated": False, "need": float(need), "n": n}
+    try:
+        run_client(cur, base, prediction_intervals=tuple(alphas), pi_method=pi_method)
+    except ModelNotEnoughSubunitsException:
+        out["raised_dedicated"] = True
+    except Exception as e:  # noqa
+        out["exc"] = f"{type(e).__name__}: {e}"
+    out["ok"] = out["exc"] is None and out["raised_dedicated"] == (n < need)
+    return out
+
+
+def fit_model_twice(kind="SolverError"):
+    """REAL fit_model, two fits on ONE model object, both failing on their first attempt"""
+    import cvxpy
+    from elexsolver.QuantileRegressionSolver import QuantileRegressionSolver
+
+    from elexmodel.models.NonparametricElectionModel import NonparametricElectionModel
+
+    real_fit = QuantileRegressionSolver.fit
+    log = []
+
+    def fit(self, *a, **k):
+        log.append(k.get("normalize_weights", True))
+        if k.get("normalize_weights", True):
+            if kind == "SolverError":
+                raise cvxpy.error.SolverError("injected")
+            raise UserWarning("Solution may be inaccurate. (injected)")
+        return real_fit(self, *a, **k)
+
+    QuantileRegressionSolver.fit = fit
+    out = {"exc": None}
+    try:
+        m = NonparametricElectionModel({})
+        rng = np.random.default_rng(0)
+        X = pd.DataFrame({"intercept": np.ones(12), "f": rng.normal(size=12)})
+        y, w = pd.Series(rng.normal(size=12)), pd.Series(rng.uniform(1, 3, size=12))
+        m.fit_model(QuantileRegressionSolver(), X, y, 0.5, w, True)
+        m.fit_model(QuantileRegressionSolver(), X, y, 0.25, w, True)
+    except Exception as e:  # noqa
+        out["exc"] = f"{type(e).__name__}: {e}"
+    finally:
+        QuantileRegressionSolver.fit = real_fit
+    out["attempts"] = log
+    out["ok"] = out["exc"] is None and log == [True, False, True, False]
+    return out
+
+
+def schema_replay(n_estimands=2, levels=(0.9, 0.7)):
+    """REAL client: tables of a multi-estimand, non-ascending multi-level request vs. single requests"""
+    ests = ["turnout", "dem", "gop"][:n_estimands]
+    base = synthetic(60, seed=1)
+    cur = feed(base, [100] * 40 + [35] * 20)
+    out = {"exc": None, "problems": []}
+    try:
+        _, r = run_client(cur, base, estimands=tuple(ests), prediction_intervals=tuple(levels), aggregates=("postal_code", "unit"))
+        for tab, keys in (("unit_data", ["postal_code", "geographic_unit_fips", "reporting", "unit_category"]), ("state_data", ["postal_code", "reporting"])):
+            cols = list(r[tab].columns)
+            for k in keys:
+                if cols.count(k) != 1:
+                    out["problems"].append({"table": tab, "column": k, "columns": cols})
+        for e in ests:
+            for a in levels:
+                _, r1 = run_client(cur, base, estimands=(e,), prediction_intervals=(a,), aggregates=("postal_code", "unit"))
+                for tab in ("unit_data", "state_data"):
+                    for s in ("lower", "upper"):
+                        c = f"{s}_{a}_{e}"
+                        if c not in r[tab].columns or not np.array_equal(r[tab][c].values, r1[tab][c].values):
+                            out["problems"].append({"table": tab, "column": c, "multi": r[tab].get(c, pd.Series(dtype=float)).tolist()[:3], "single": r1[tab][c].tolist()[:3]})
+    except Exception as e:  # noqa
+        out["exc"] = f"{type(e).__name__}: {e}"
+    out["ok"] = out["exc"] is None and not out["problems"]
+    return out
